@@ -29,24 +29,28 @@ class Job:
 
 
 _TRACE_FUNCS = None
+_SX = None
 
 
 def _profiler(frame, event, arg):
     if event == "call":
         co = frame.f_code
         fn = co.co_filename
-        if fn.startswith(REPO + "/a5"):
+        if fn.startswith(REPO + "/a5") and co.co_name[0] != "<" and _SX._CTX is not None:
             _TRACE_FUNCS.add((fn[len(REPO) + 1:], co.co_name))
 
 
 def run_job(job):
     """Executed in a worker process."""
-    global _TRACE_FUNCS
+    global _TRACE_FUNCS, _SX
     sys.setrecursionlimit(20000)
     t0 = time.time()
     out = {"name": job.name, "func": job.func, "params": _jsonable(job.params)}
     try:
         from symx import core as sx
+        _SX = sx
+        import a5  # noqa: F401  (import-time code runs before tracing starts)
+        import a5.core.compact, a5.core.cell, a5.core.hilbert, a5.core.tiling  # noqa: F401,E401
         mod = importlib.import_module(job.module)
         fn = getattr(mod, job.func)
         _TRACE_FUNCS = set()
@@ -253,7 +257,7 @@ def finish(pid, tier, seed, mod, results, t0, extra_cov=None, assumptions=None):
         "inconclusive_messages": inconclusive[:10],
         "non_reproducing_models": len(nonrepro),
         "known_findings_hit": sorted(known_hits),
-        "jobs": jobrows if len(jobrows) <= 80 else jobrows[:80] + [{"more": len(jobrows) - 80}],
+        "jobs": _toprows(jobrows),
         "job_errors": [r["error"][-600:] for r in errors][:5],
         "trusted_base": ["CPython executing the real code on symx proxies", "z3 %s" % _z3v(),
                          "interval/known-bits guard tying bit-vectors to Python ints"],
@@ -299,6 +303,11 @@ def finish(pid, tier, seed, mod, results, t0, extra_cov=None, assumptions=None):
     if violations:
         rc = EXIT_VIOLATION
     return rc
+
+
+def _toprows(rows, n=60):
+    rows = sorted(rows, key=lambda r: -r["wall_s"])
+    return rows if len(rows) <= n else rows[:n] + [{"more_jobs_not_listed": len(rows) - n}]
 
 
 def _z3v():
